@@ -165,7 +165,7 @@ func VF_C16_K1_Encoders() {
 	N := zzvf.Param("nodes")
 	slots := zzvf.Param("slots")
 	flat := zzvf.Param("flat") == 1
-	apiPath := []string{"/api/", "/"}[zzvf.Param("api")]
+	apiPath := []string{"/api/", "/", "/api/v1.0/"}[zzvf.Param("api")]
 	nodes := make([]*vfNode, N)
 	for i := range nodes {
 		nodes[i] = &vfNode{rid: vfNodeRIDn(i)}
